@@ -111,8 +111,16 @@ def run_case(case):
         if extra_ref:
             refs.update(extra_ref)
         fittable = {c: k for c, k in refs.items() if np.isfinite(k)}
+        cands_obj = getattr(model, 'candidates', None)
+        cands_before = list(cands_obj) if isinstance(cands_obj, list) else None
         try:
             model.fit(x.copy())
+            if cands_before is not None and not (model.candidates is cands_obj and len(cands_obj) == len(cands_before) and
+                                                 all(a is b for a, b in zip(cands_obj, cands_before))):
+                # the candidate set is configuration (the caller's list): a fit - also one in which candidates fail - leaves it
+                r.violation('C05:select:candidates-modified', f'{tag}: fit changed the candidate list from '
+                            f'{[getattr(c, "__name__", type(c).__name__) for c in cands_before]} to '
+                            f'{[getattr(c, "__name__", type(c).__name__) for c in model.candidates]}', case=case)
         except Exception as e:
             if fittable:
                 r.violation('C05:select:raises', f'{tag}: fit raised {type(e).__name__}: {e} although candidates '
